@@ -3,6 +3,7 @@ import NunavutVerif.Lemmas.GenCDe
 import NunavutVerif.Lemmas.DsdlRepr
 import NunavutVerif.Lemmas.DsdlDecode
 import NunavutVerif.Lemmas.GenCXDe
+import NunavutVerif.Lemmas.GenCXSer
 /-!
 # C01 / C02 / C04 — the generated C codecs refine the DSDL specification
 
@@ -361,23 +362,25 @@ example : deserializeC (liar false) exTy2 [253, 7] 2 ≠ (deBytes exTy2 [253, 7]
 /-! ## Round 2: addresses (the `nunavutCopyBits` assertions about `src` / `dst`) -/
 
 /-- **Deserialization with addresses** (C02/C04).  `deserializeCX` is the same transcription with every
-`nunavutCopyBits` call preceded by its three address assertions (`src != dst` and, in the unaligned branch, the two
-overlap assertions as emitted since 443d39c), the buffer at address `b0`, nested calls on `&buffer[offset_bits / 8U]`,
+`nunavutCopyBits` call preceded by its three address assertions (`(length_bits == 0U) || (src != dst)` as emitted since
+23731cd and, in the unaligned branch, the two overlap assertions as emitted since 443d39c), the buffer at address `b0`, nested calls on `&buffer[offset_bits / 8U]`,
 and the primitive's local / the destination member array wherever the placement `X.adr` puts them.  For **every**
 placement that keeps those objects disjoint from the user's buffer (`Placed`: no assumption about order or
 distance) the result is that of `deserializeC` — in particular the source range `psrc + (src_offset_bits +
 length_bits + 7) / 8`, which is computed from the UNSATURATED offset and may reach far behind the buffer, cannot
 matter: it is not evaluated for a copy of zero bits and lies inside the buffer otherwise (`copyBits_ok_inv`).
-`hh`: the unguarded `src != dst` additionally needs that no such object starts exactly at a pointer at or behind the
-end of the buffer (the code forms `&buffer[offset_bits / 8U]` there and copies zero bits from it); see the example
-below for why this cannot be dropped. -/
+(`hfx`, `hhg` select the assertion text of HEAD.  The unguarded `src != dst` before 23731cd additionally needed that no such
+object starts exactly at a pointer at or behind the end of the buffer — the code forms `&buffer[offset_bits / 8U]` there and
+copies zero bits from it; see the examples below: that text fails under `Placed` alone.) -/
 theorem C02_genC_deserialize_any_placement (o : Opts) (hs : o.Sound) (t : Ty) (hw : wf t = true) (hwC : wfC t = true)
     (hc : isComposite (topInner t) = true) (buf : Buf) (cap : Nat) (hwf : WF buf) (hcap : cap ≤ buf.length)
-    (X : Ext) (hfx : X.fixed = true) (hov : X.ovr = false) (b0 : Nat) (hp : Placed X b0 buf.length)
-    (hh : X.headGuarded = true ∨ NoAliasPastEnd X b0 buf.length) :
+    (X : Ext) (hfx : X.fixed = true) (hhg : X.headGuarded = true) (hov : X.ovr = false) (b0 : Nat)
+    (hp : Placed X b0 buf.length) :
     deserializeCX o X b0 t buf cap = deserializeC o t buf cap := by
   have hi : InvD o X b0 buf.length b0 buf := fun _ _ => ⟨Nat.le_refl _, fun _ => Nat.le_refl _⟩
-  rcases (deSimP (B := False) hfx hov hp hh t).2 b0 buf cap hi with h | ⟨hB, _⟩ | ⟨e, h⟩
+  have hec : ∀ t c, effCap X t c = c := fun t c => by simp [effCap, hov]
+  rcases (deSimP (B := False) hfx hp (Or.inl hhg) (fun t c => by rw [hec]; exact Nat.le_refl _)
+      (fun t c h => by rw [hec] at h; exact absurd h (Nat.lt_irrefl _)) t).2 b0 buf cap hi with h | ⟨hB, _⟩ | ⟨e, h⟩
   · exact h
   · exact absurd hB id
   · exact absurd h (C04_genC_deserialize_memory_safe o hs t hw hwC hc buf cap hwf hcap e)
@@ -386,10 +389,10 @@ theorem C02_genC_deserialize_any_placement (o : Opts) (hs : o.Sound) (t : Ty) (h
 the locals and the destination object are placed (extends `C04_genC_no_assertion_fails`). -/
 theorem C04_genC_no_assertion_fails_any_placement_deserialize (o : Opts) (hs : o.Sound) (t : Ty) (hw : wf t = true)
     (hwC : wfC t = true) (hc : isComposite (topInner t) = true) (buf : Buf) (cap : Nat) (hwf : WF buf)
-    (hcap : cap ≤ buf.length) (X : Ext) (hfx : X.fixed = true) (hov : X.ovr = false) (b0 : Nat)
-    (hp : Placed X b0 buf.length) (hh : X.headGuarded = true ∨ NoAliasPastEnd X b0 buf.length) :
+    (hcap : cap ≤ buf.length) (X : Ext) (hfx : X.fixed = true) (hhg : X.headGuarded = true) (hov : X.ovr = false)
+    (b0 : Nat) (hp : Placed X b0 buf.length) :
     deserializeCX o X b0 t buf cap ≠ .error .assert := by
-  rw [C02_genC_deserialize_any_placement o hs t hw hwC hc buf cap hwf hcap X hfx hov b0 hp hh]
+  rw [C02_genC_deserialize_any_placement o hs t hw hwC hc buf cap hwf hcap X hfx hhg hov b0 hp]
   rw [deserializeC_refines o hs t hw hwC hc buf cap hwf hcap]
   cases deBytes t (buf.take cap) with
   | ok r => intro h; cases h
@@ -404,21 +407,136 @@ def regOpts : Opts := { little := false, orc := exactOrc, asserts := true }
 def allAt (a : Nat) (fixed headGuarded : Bool) : Ext :=
   { addrs := true, adr := fun _ _ _ _ => a, fixed := fixed, headGuarded := headGuarded }
 
-example : ∀ k pb off sz, Disj ((allAt 101 false false).adr k pb off sz) sz 100 1 := fun _ _ _ _ => Or.inr (Nat.le_refl _)
-example : deserializeCX regOpts (allAt 101 false false) 100 regTy [0x55] 1 = .error .assert := by decide
-example : deserializeCX regOpts (allAt 101 true false) 100 regTy [0x55] 1 = .ok (.struct [.int 0x55, .void, .int 0], 1) := by
+example : ∀ k pb off sz, Disj ((allAt 101 false true).adr k pb off sz) sz 100 1 := fun _ _ _ _ => Or.inr (Nat.le_refl _)
+example : deserializeCX regOpts (allAt 101 false true) 100 regTy [0x55] 1 = .error .assert := by decide
+example : deserializeCX regOpts (allAt 101 true true) 100 regTy [0x55] 1 = .ok (.struct [.int 0x55, .void, .int 0], 1) := by
   decide
 example : deserializeC regOpts regTy [0x55] 1 = .ok (.struct [.int 0x55, .void, .int 0], 1) := by decide
 -- the same with the local directly below the buffer, and little-endian rendering
-example : deserializeCX { regOpts with little := true } (allAt 92 true false) 100 regTy [0x55] 1 =
+example : deserializeCX { regOpts with little := true } (allAt 92 true true) 100 regTy [0x55] 1 =
     .ok (.struct [.int 0x55, .void, .int 0], 1) := by decide
 
-/-! `src != dst` (emitted unguarded): `uint8 a; Inner b` with `Inner = uint16 x`, one-byte buffer at 100: the nested call
+/-! Regression (23731cd): `src != dst` as emitted before (unguarded, `headGuarded := false`): `uint8 a; Inner b` with `Inner = uint16 x`, one-byte buffer at 100: the nested call
 gets `&buffer[1]` = 101 with size 0 and `nunavutGetU16` copies zero bits from it into its local — if that local is the
-object right behind the buffer, `src == dst`.  The overlap assertions hold; `hh` of the theorem is what excludes this. -/
+object right behind the buffer, `src == dst`: abort, under `Placed` alone.  Text of HEAD: not demanded of zero bits. -/
+example : Placed (allAt 101 true false) 100 1 := fun _ _ _ _ => Or.inr (Nat.le_refl _)
 def nestTy : Ty := .struct [.uint 8 .trunc, .struct [.uint 16 .trunc]]
 example : deserializeCX regOpts (allAt 101 true false) 100 nestTy [7] 1 = .error .assert := by decide
 example : deserializeCX regOpts (allAt 101 true true) 100 nestTy [7] 1 = deserializeC regOpts nestTy [7] 1 := by decide
 example : deserializeCX regOpts (allAt 102 true false) 100 nestTy [7] 1 = deserializeC regOpts nestTy [7] 1 := by decide
+
+/-! ### serialization with addresses -/
+
+/-- **Serialization with addresses** (C01/C04).  `serializeCX`: every `nunavutCopyBits` call of the serializer (through
+`nunavutSetUxx` / `nunavutSetIxx` — padding, voids, unaligned integers and floats, length prefixes, union tags, delimiter
+headers — and the bulk copies of bool / zero-cost arrays from the member arrays) is preceded by its address assertions;
+the buffer is at `b0`, nested `_serialize_` calls get `&buffer[offset_bits / 8U]`; the `value`/`tmp` local of
+`nunavutSetUxx` and the source member arrays sit wherever the placement puts them.  For **every** placement that keeps
+them disjoint from the user's buffer the result (buffer contents, reported size, error code) is that of `serializeC`.
+No hypothesis about the head assertion is needed (holds for the text before 23731cd as well): when the serializer
+copies, its buffer pointer lies strictly inside the user's buffer. -/
+theorem C01_genC_serialize_any_placement (o : Opts) (hs : o.Sound) (t : Ty) (hw : wf t = true) (hwC : wfC t = true)
+    (hc : isComposite (topInner t) = true) (v : Val) (ht : hasTy t v = true) (hst : storageOK t v = true)
+    (buf : Buf) (cap : Nat) (hwf : WF buf) (hcap : cap ≤ buf.length)
+    (X : Ext) (hfx : X.fixed = true) (hov : X.ovr = false) (hnc : X.noCheck = false) (b0 : Nat)
+    (hp : Placed X b0 buf.length) :
+    serializeCX o X b0 t v buf cap = serializeC o t v buf cap := by
+  have hec : ∀ t c, effCap X t c = c := fun t c => by simp [effCap, hov]
+  have hi : InvF o X b0 buf.length b0 buf.length cap := fun _ _ => ⟨Nat.le_refl _, Nat.le_refl _, hcap⟩
+  rcases ((serSimP (B := False) hfx hp hnc (fun t c => by rw [hec]; exact Nat.le_refl _)
+      (fun t c h => by rw [hec] at h; exact absurd h (Nat.lt_irrefl _)) t).2 v b0 buf cap hi).1 with h | ⟨hB, _⟩ | ⟨e, h⟩
+  · exact h
+  · exact absurd hB id
+  · exact absurd h (C04_genC_serialize_memory_safe o hs t hw hwC hc v ht hst buf cap hwf hcap e)
+
+/-- … hence no assertion of the serializer can fail, the address assertions of `nunavutCopyBits` included, wherever
+the locals and the source object are placed (extends `C04_genC_no_assertion_fails`). -/
+theorem C04_genC_no_assertion_fails_any_placement_serialize (o : Opts) (hs : o.Sound) (t : Ty) (hw : wf t = true)
+    (hwC : wfC t = true) (hc : isComposite (topInner t) = true) (v : Val) (ht : hasTy t v = true)
+    (hst : storageOK t v = true) (buf : Buf) (cap : Nat) (hwf : WF buf) (hcap : cap ≤ buf.length)
+    (X : Ext) (hfx : X.fixed = true) (hov : X.ovr = false) (hnc : X.noCheck = false) (b0 : Nat)
+    (hp : Placed X b0 buf.length) :
+    serializeCX o X b0 t v buf cap ≠ .error .assert := by
+  rw [C01_genC_serialize_any_placement o hs t hw hwC hc v ht hst buf cap hwf hcap X hfx hov hnc b0 hp]
+  exact (C04_genC_no_assertion_fails o hs t hw hwC hc v ht hst buf cap hwf hcap).1
+
+-- non-vacuity: the guard is really evaluated (an object INSIDE the buffer makes it fail), and passes next to it
+example : serializeCX regOpts (allAt 100 true true) 100 regTy (.struct [.int 5, .void, .int 9]) [0, 0, 0] 3 = .error .assert := by
+  decide
+example : serializeCX regOpts (allAt 103 true true) 100 regTy (.struct [.int 5, .void, .int 9]) [0, 0, 0] 3 =
+    serializeC regOpts regTy (.struct [.int 5, .void, .int 9]) [0, 0, 0] 3 := by decide
+example : serializeCX regOpts (allAt 92 true false) 100 regTy (.struct [.int 5, .void, .int 9]) [0, 0, 0] 3 =
+    serializeC regOpts regTy (.struct [.int 5, .void, .int 9]) [0, 0, 0] 3 := by decide
+
+/-! ## Round 2: `--enable-override-variable-array-capacity`
+
+Full statement (B): with user capacities `X.ucap elem c ≤ c`,
+* `deserializeCX` returns `(deBytes t (buf.take cap))` when that is an object all of whose non-bool variable-length
+  array counts are `≤ ucap`, `-BAD_ARRAY_LENGTH` when the first such count in wire order exceeds it, and the spec's error
+  otherwise;  `serializeCX` (buffer large enough: the header compiles the up-front check out as soon as a capacity macro
+  is defined by the user) accepts exactly the objects with all those counts `≤ ucap` and leaves `serBytes`.
+Proved below (`…_partial`): both functions return **what the DSDL-capacity code returns, or `-BAD_ARRAY_LENGTH`** — never
+anything else: no out-of-bounds access into the shortened member arrays, no assertion, same bytes / object / consumed size
+whenever the call succeeds — for every placement; and with `ucap = DSDL capacity` they coincide with `serializeC` /
+`deserializeC`, i.e. all theorems above carry over to the override build with the macros left at their defaults.
+Missing: the characterisation of WHEN `-BAD_ARRAY_LENGTH` is returned by the counts of the object (a second induction
+relating the result value to the counts); for serialization additionally `noCheck = true` with `maxBits ≤ 8·cap`. -/
+
+theorem C02_genC_deserialize_override_partial (o : Opts) (hs : o.Sound) (t : Ty) (hw : wf t = true) (hwC : wfC t = true)
+    (hc : isComposite (topInner t) = true) (buf : Buf) (cap : Nat) (hwf : WF buf) (hcap : cap ≤ buf.length)
+    (X : Ext) (hfx : X.fixed = true) (hhg : X.headGuarded = true) (hr : Reduced X) (b0 : Nat)
+    (hp : Placed X b0 buf.length) :
+    deserializeCX o X b0 t buf cap = (deBytes t (buf.take cap)).mapError embedD ∨
+      deserializeCX o X b0 t buf cap = .error eBadArrayLength := by
+  have hi : InvD o X b0 buf.length b0 buf := fun _ _ => ⟨Nat.le_refl _, fun _ => Nat.le_refl _⟩
+  rw [← deserializeC_refines o hs t hw hwC hc buf cap hwf hcap]
+  rcases (deSimP (B := True) hfx hp (Or.inl hhg) (effCap_le hr) (fun _ _ _ => trivial) t).2 b0 buf cap hi with
+    h | ⟨_, h⟩ | ⟨e, h⟩
+  · exact Or.inl h
+  · exact Or.inr h
+  · exact absurd h (C04_genC_deserialize_memory_safe o hs t hw hwC hc buf cap hwf hcap e)
+
+/-- the override build with every capacity macro at its default is the plain build -/
+theorem C02_genC_deserialize_override_default_capacity (o : Opts) (hs : o.Sound) (t : Ty) (hw : wf t = true)
+    (hwC : wfC t = true) (hc : isComposite (topInner t) = true) (buf : Buf) (cap : Nat) (hwf : WF buf)
+    (hcap : cap ≤ buf.length) (X : Ext) (hfx : X.fixed = true) (hhg : X.headGuarded = true)
+    (hid : ∀ t c, X.ucap t c = c) (b0 : Nat) (hp : Placed X b0 buf.length) :
+    deserializeCX o X b0 t buf cap = deserializeC o t buf cap := by
+  have hec : ∀ t c, effCap X t c = c := fun t c => by unfold effCap; split <;> simp [hid]
+  have hi : InvD o X b0 buf.length b0 buf := fun _ _ => ⟨Nat.le_refl _, fun _ => Nat.le_refl _⟩
+  rcases (deSimP (B := False) hfx hp (Or.inl hhg) (fun t c => by rw [hec]; exact Nat.le_refl _)
+      (fun t c h => by rw [hec] at h; exact absurd h (Nat.lt_irrefl _)) t).2 b0 buf cap hi with h | ⟨hB, _⟩ | ⟨e, h⟩
+  · exact h
+  · exact absurd hB id
+  · exact absurd h (C04_genC_deserialize_memory_safe o hs t hw hwC hc buf cap hwf hcap e)
+
+/-- serialization under override, with the up-front buffer check still compiled in (`noCheck = false`) -/
+theorem C01_genC_serialize_override_partial (o : Opts) (hs : o.Sound) (t : Ty) (hw : wf t = true) (hwC : wfC t = true)
+    (hc : isComposite (topInner t) = true) (v : Val) (ht : hasTy t v = true) (hst : storageOK t v = true)
+    (buf : Buf) (cap : Nat) (hwf : WF buf) (hcap : cap ≤ buf.length)
+    (X : Ext) (hfx : X.fixed = true) (hr : Reduced X) (hnc : X.noCheck = false) (b0 : Nat)
+    (hp : Placed X b0 buf.length) :
+    serializeCX o X b0 t v buf cap = serializeC o t v buf cap ∨
+      serializeCX o X b0 t v buf cap = .error eBadArrayLength := by
+  have hi : InvF o X b0 buf.length b0 buf.length cap := fun _ _ => ⟨Nat.le_refl _, Nat.le_refl _, hcap⟩
+  rcases ((serSimP (B := True) hfx hp hnc (effCap_le hr) (fun _ _ _ => trivial) t).2 v b0 buf cap hi).1 with
+    h | ⟨_, h⟩ | ⟨e, h⟩
+  · exact Or.inl h
+  · exact Or.inr h
+  · exact absurd h (C04_genC_serialize_memory_safe o hs t hw hwC hc v ht hst buf cap hwf hcap e)
+
+/-! non-vacuity: `uint8 a; uint8[<=6] xs; uint8 b` with the user capacity 2 -/
+def ovTy : Ty := .struct [.uint 8 .trunc, .varr (.uint 8 .trunc) 6, .uint 8 .trunc]
+def ovX (u : Nat) : Ext := { ovr := true, ucap := fun _ c => if u < c then u else c }
+def ovOpts : Opts := { little := true, orc := exactOrc }
+example : Reduced (ovX 2) := fun _ c => by simp only [ovX]; split <;> omega
+example : deserializeCX ovOpts (ovX 2) 0 ovTy [1, 2, 10, 11, 9] 5 = deserializeC ovOpts ovTy [1, 2, 10, 11, 9] 5 := by decide
+example : deserializeC ovOpts ovTy [1, 3, 10, 11, 12, 9] 6 = .ok (.struct [.int 1, .arr [.int 10, .int 11, .int 12], .int 9], 6) := by
+  decide
+example : deserializeCX ovOpts (ovX 2) 0 ovTy [1, 3, 10, 11, 12, 9] 6 = .error eBadArrayLength := by decide
+example : serializeCX ovOpts (ovX 2) 0 ovTy (.struct [.int 1, .arr [.int 10, .int 11], .int 9]) (List.replicate 9 255) 9 =
+    serializeC ovOpts ovTy (.struct [.int 1, .arr [.int 10, .int 11], .int 9]) (List.replicate 9 255) 9 := by decide
+example : serializeCX ovOpts (ovX 2) 0 ovTy (.struct [.int 1, .arr [.int 10, .int 11, .int 12], .int 9]) (List.replicate 9 255) 9 =
+    .error eBadArrayLength := by decide
 
 end NunavutVerif.GenC
